@@ -33,7 +33,7 @@ def _shape(rnd, idx):
     def node(depth):
         budget[0] -= 1
         if depth >= 4 or budget[0] <= 0 or rnd.random() < 0.35:
-            k = rnd.choice(['mark', 'mark', 'children', 'children', 'children', 'call', 'call'])
+            k = rnd.choice(['mark', 'mark', 'children', 'children', 'children', 'call', 'call', 'legacycall'])
         else:
             k = rnd.choice(['callblock', 'callblock', 'callblock', 'callblock', 'if', 'for', 'el', 'once', 'flush', 'switch', 'join'])
         if k == 'mark':
@@ -42,6 +42,8 @@ def _shape(rnd, idx):
             return {'k': 'children'}
         if k == 'call':
             return {'k': 'call', 'i': rnd.randrange(3)}
+        if k == 'legacycall':
+            return {'k': 'legacycall', 'i': rnd.randrange(3)}
         if k == 'callblock':
             return {'k': 'callblock', 'i': rnd.randrange(3), 'body': body(depth + 1)}
         if k == 'if':
@@ -76,6 +78,8 @@ def _emit(nodes, ind, out):
             out.append('%s{ children... }' % t)
         elif k == 'call':
             out.append('%s@p%d' % (t, n['i']))
+        elif k == 'legacycall':
+            out.append('%s{! p%d }' % (t, n['i']))  # the older call syntax, still accepted
         elif k == 'callblock':
             out.append('%s@p%d {' % (t, n['i']))
             _emit(n['body'], ind + 1, out)
